@@ -160,7 +160,7 @@ type srcNodeOpt struct {
 // srcBuild: node rules first (exact paths, no host), then the entry rules.
 func srcBuild(g *hx.Gen, choice []int, opt []srcNodeOpt, entries []hx.RuleSpec) srcCase {
 	n := len(choice)
-	c := srcCase{Known: []string{"d0.test", "e0.test", "e1.test", "e2.test", "e3.test"}}
+	c := srcCase{Known: []string{"d0.test", "e0.test", "e1.test", "e2.test", "e3.test", "d0.test:8080", "d0.test:9090"}}
 	statuses := []int{301, 302, 303, 307, 308}
 	for i := 0; i < n; i++ {
 		nd := srcNode{Path: srcPaths[i], Intended: -1, RuleIdx: -1, CC: opt[i].cc}
@@ -305,6 +305,8 @@ func srcStream(g *hx.Gen, id int) hx.Case {
 		case 5: // absolute, to a host nobody answers for
 			nd.Location = srcLocation(srcFormAbs, nd.Path, to, "nowhere.test", "http")
 			nd.Intended = -2
+		case 7, 8: // absolute, to the destination host on an explicit port (two nodes may name two ports of one host)
+			nd.Location = srcLocation(srcFormAbs, nd.Path, to, "d0.test:"+[]string{"8080", "9090"}[(i+g.Intn(2))%2], "http")
 		case 6: // with a query (an exact-path rule does not match it: fallback)
 			nd.Location = srcLocation(opt[i].form, nd.Path, to, "d0.test", "http") + "?q=" + hx.I(i)
 		}
